@@ -161,3 +161,12 @@ fam('dipops', depth=2, maxstack=7,
            (S(NAT, i(8)), S(BOOL, T_), S(BOOL, F_), S(OPT(INT), some(i(1))), S(LIST(INT), lst(i(1), i(2))), S(OR(INT, STR), left(i(5)))),
            (S(UNIT, U), S(INT, i(1)), S(SET(INT), ('set', (i(1), i(4)))), S(BYT, b([1, 2])), S(MAP(INT, STR), ('map', ((i(1), s('x')),))))],
     alphabet=[DIP(n, x) for n in (1, 2) for x in _dops] + [('DIG', 2), ('SWAP',), DROP(1)])
+
+# values obtained as a *part* of another value (the tail of a list, a component of a pair, the value of a map entry) and then used as data by every consumer
+# that looks at a value's representation rather than at its elements: captured by APPLY (written into the closure as a literal), packed, compared, consed
+_capcall = lambda t: ('SEQ', (('LAMBDA', P(t, INT), t, (('CAR',),)), ('SWAP',), ('APPLY',), PUSH(INT, i(0)), ('EXEC',)))
+fam('parts', depth=3, maxstack=3,
+    inits=[(S(LIST(INT), lst(i(1), i(2), i(3))),), (S(LIST(INT), lst(i(7))),), (S(P(LIST(INT), INT), p(lst(i(4), i(5)), i(6))),)],
+    alphabet=[('IF_CONS', (DROP(1),), (('NIL', INT),)), ('IF_CONS', (('SWAP',), DROP(1), ('NIL', INT), ('SWAP',), ('CONS',)), (('NIL', INT),)), _capcall(LIST(INT)),
+              ('CAR',), ('SIZE',), ('SEQ', (PUSH(INT, i(9)), ('CONS',))), ('MAP', (PUSH(INT, i(1)), ('ADD',))), DUP(1), ('SEQ', (('NIL', INT), ('SWAP',), ('ITER', (('CONS',),)))),
+              ('SEQ', (('LAMBDA', LIST(INT), INT, (('SIZE',), ('INT',))), ('SWAP',), ('EXEC',)))])
